@@ -61,6 +61,11 @@ fn main() {
     let known = load_known(&verif_dir);
     let open: Vec<String> = known.findings.iter().filter(|f| f.status == "open").map(|f| f.id.clone()).collect();
     init_globals(open);
+    fn rejudge(prop: &str, part: &str, case: &avt_verif::case::Case) -> Verdict {
+        let mut t = Tally::default();
+        props::judge(prop, part, case, &mut t).unwrap_or(Verdict::Pass)
+    }
+    set_rejudge(rejudge);
     start_watchdog(prop.clone(), verif_dir.clone());
 
     // ---- replay mode: re-judge one file strictly (known findings not tolerated)
